@@ -221,7 +221,10 @@ pub fn history(seed: u64, idx: u64) -> Case {
                     let code = PingFault::ErrorCode(rng.below(crate::server::ERROR_REPLIES.len() as u64) as u8);
                     let shape = PingFault::Shape(rng.below(3) as u8);
                     let named = PingFault::Named(rng.below(2 * crate::server::NAMED_REPLIES.len() as u64) as u8);
-                    let f = *rng.pick(&[PingFault::Stale, PingFault::Wrong, look, look, shape, shape, named, named, named, PingFault::Newest, PingFault::Newest, PingFault::Error, code, code, PingFault::Disconnect, PingFault::Silence]);
+                    let f = *rng.pick(&[PingFault::Stale, PingFault::Wrong, look, look, shape, shape, named, named, named, PingFault::Error, code, code, PingFault::Disconnect, PingFault::Silence]);
+                    // "the echo of a newer PING of another connection" needs two recycles in flight: whenever
+                    // that is possible it gets a third of the faults
+                    let f = if idle.len() >= 2 && max_size - held.len() >= 2 && rng.chance(1, 3) { PingFault::Newest } else { f };
                     if rng.chance(1, 5) {
                         st.lock().unwrap().kill = true;
                         for _ in 0..2000 {
